@@ -12,7 +12,7 @@ THEOREMS = ['C16_probe_exactly_when_idle', 'C16_drop_only_after_silence', 'C16_l
 IMPORTS = ['AV.Model.Keeper']
 
 
-def play(interval, timeout, arrivals, delays, horizon, pause_at=None, kinds=None):
+def play(interval, timeout, arrivals, delays, horizon, pause_at=None, kinds=None, deny_throttle=False):
     """times in seconds; arrivals = times at which the SMSC sends an enquire_link of its own; delays[k] = answer delay of probe k or None"""
     loop = vsess.VLoop()
     asyncio.set_event_loop(loop)
@@ -20,7 +20,25 @@ def play(interval, timeout, arrivals, delays, horizon, pause_at=None, kinds=None
     undo = vsess.install(loop, smsc)
     obs = {'probes': [], 'keeper_end': None, 'keeper_exc': None}
     try:
-        esme, hook = vsess.quiet_esme(enquire_link_interval=interval, socket_timeout=timeout)
+        kw = {}
+        if deny_throttle:
+            # the SMSC has been throttling: the handler denies every request of the application - the keep-alive must not care
+            from aiosmpplib.throttle import AbstractThrottleHandler
+
+            class DenyAll(AbstractThrottleHandler):
+                async def throttled(self):
+                    pass
+
+                async def not_throttled(self):
+                    pass
+
+                async def allow_request(self):
+                    return False
+
+                async def throttle_delay(self):
+                    return 1.0
+            kw['throttle_handler'] = DenyAll()
+        esme, hook = vsess.quiet_esme(enquire_link_interval=interval, socket_timeout=timeout, **kw)
         orig = esme._connection_keeper
         first = [True]
 
@@ -202,7 +220,10 @@ def run(ctx):
     cases = []
     for i in range(n):
         interval, timeout, arrivals, delays, horizon, pause_at, kinds = gen(rng)
-        obs = play(interval, timeout, arrivals, delays, horizon, pause_at, kinds)
+        deny = pause_at is None and i % 6 == 5
+        obs = play(interval, timeout, arrivals, delays, horizon, pause_at, kinds, deny_throttle=deny)
+        if deny:
+            ctx.count('throttle_handler_denying_everything')
         if pause_at is not None:
             ctx.count('peer_goes_dead_with_write_backpressure')
         for kd in kinds:
@@ -212,7 +233,7 @@ def run(ctx):
         ctx.count('dropped' if drop is not None else 'kept')
         ctx.count('probes', len(obs['probes']))
         rp = {'interval': interval, 'timeout': timeout, 'arrivals': arrivals, 'delays': delays[:len(obs['probes']) + 2], 'horizon': horizon,
-              'pause_at': pause_at, 'kinds': kinds}
+              'pause_at': pause_at, 'kinds': kinds, 'deny_throttle': deny}
         if obs['start_done']:
             ctx.violation('start() ended during a keep-alive scenario', rp)
         msg = oracle(interval, timeout, arrivals, delays, horizon, obs)
@@ -242,7 +263,7 @@ def replay(ctx, path):
     import json
     rp = json.load(open(path))
     if 'interval' in rp:
-        obs = play(rp['interval'], rp['timeout'], rp['arrivals'], rp['delays'] + [None] * 40, rp['horizon'], rp.get('pause_at'), rp.get('kinds'))
+        obs = play(rp['interval'], rp['timeout'], rp['arrivals'], rp['delays'] + [None] * 40, rp['horizon'], rp.get('pause_at'), rp.get('kinds'), deny_throttle=rp.get('deny_throttle', False))
         print('replay: probes', obs['probes'], 'keeper ended', obs['keeper_end'], 'conn closed', obs['conn0_closed'])
         print('oracle:', oracle(rp['interval'], rp['timeout'], rp['arrivals'], rp['delays'] + [None] * 40, rp['horizon'], obs))
     else:
